@@ -12,6 +12,7 @@ import (
 	"errors"
 	"fmt"
 	"strings"
+	"sync"
 
 	ds "github.com/ipfs/go-datastore"
 	"github.com/ipfs/go-datastore/query"
@@ -97,6 +98,11 @@ type keystore struct {
 	requests chan operation
 	close    chan struct{}
 	done     chan struct{}
+
+	// closeOnce makes Close idempotent and safe to call concurrently: every
+	// caller returns only once the shutdown has completed, with its result.
+	closeOnce sync.Once
+	closeErr  error
 
 	logger *log.ZapEventLogger
 }
@@ -613,19 +619,16 @@ func (s *keystore) Size(ctx context.Context) (int, error) {
 // startup on the next run. The ordering is critical: persistSize() must be
 // called after <-s.done to avoid race conditions with the worker goroutine.
 func (s *keystore) Close() error {
-	var err error
-	select {
-	case <-s.close:
-		// Already closed
-	default:
+	s.closeOnce.Do(func() {
 		close(s.close)
 		<-s.done // Wait for worker to exit
-		if err = s.persistSize(); err != nil {
-			return fmt.Errorf("error persisting size on close: %w", err)
+		if err := s.persistSize(); err != nil {
+			s.closeErr = fmt.Errorf("error persisting size on close: %w", err)
+			return
 		}
-		if err = s.ds.Sync(context.Background(), sizeKey); err != nil {
-			return fmt.Errorf("error syncing size on close: %w", err)
+		if err := s.ds.Sync(context.Background(), sizeKey); err != nil {
+			s.closeErr = fmt.Errorf("error syncing size on close: %w", err)
 		}
-	}
-	return err
+	})
+	return s.closeErr
 }
